@@ -599,4 +599,5 @@ VARIANTS += [
     PV("n6-C18-1", NO14, "selftest/patches/n6-C18-1.diff"),
     # 
     PV("n6-C18-2", NO14, "selftest/patches/n6-C18-2.diff"),
+    PV("n7-memo-env-keyed-with-prefix", ["C01", "C05", "C06", "C09", "C15", "C18"], "selftest/patches/n7-memo-env-keyed-with-prefix.diff"),
 ]
